@@ -19,7 +19,7 @@ TOpen ==
 TReg == IsEvent("reg") /\ RReg(R.reg, R.node, R.hash, R.amt, R.min_cltv, R.expiry, R.meta)
 
 \* a JSON list of [type, value] pairs as the set of custom TLVs
-TlvSet(l) == {<<l[i][1], l[i][2]>> : i \in 1..Len(l)}
+TlvSet(q) == {<<q[i][1], q[i][2]>> : i \in 1..Len(q)}
 
 TSend ==
   /\ IsEvent("send")
